@@ -282,7 +282,10 @@ IONS = ['[CH3+]', 'C[CH2+]', 'C[O-]', 'CC(=O)[O-]', 'C[NH3+]', '[OH-]', '[CH2-]C
 POLYCYCLIC = ['C1CCC2CCCC2C1', 'C1CC2CCCC12', 'C1CC12CCC2', 'C1CC2CCC12', 'C1CCC2(C1)CCCCC2', 'C1CC2CC1CCC2', 'C1CC2CCC1C2', 'C1CCC2CC2C1',
               'C1CC2OC2C1', 'C1=CC2CCCC2C1', 'C1CCC2CCCCC2C1', 'C12CC1C2', 'C1CC2CC3CC1C23', 'OC1CC2CCC1C2', 'C1COC2CCCC2C1', 'c1ccc2CCCc2c1',
               'C1CC2CCC1[CH]2', '[Pt]C1CC2CCCC12', 'C12CC(C1)C2', 'C1CC2CCC1CC2', 'C12C3C4C1C5C2C3C45', 'C1C2CC3CC1CC(C2)C3', 'C1C2CC1C2',
-              'C12CC(C1)(C2)C', 'OC12CC(C1)C2', 'C1CC2(C1)CC2']
+              'C12CC(C1)(C2)C', 'OC12CC(C1)C2', 'C1CC2(C1)CC2',
+              # three and more rings: an atom in two rings plus a ring elsewhere (the ring list interleaves them for some atom orders)
+              'C1CC12CC2C1CCC1', 'C1CC12CC2CC1CC1', 'C1CC2CC2CC1C1CC1', 'C1CC1C1CC12CC2', 'C1CCC1C1CC2CC2C1', 'C1CC1CC1CC12CCC2', 'C1CC1C1CC2(CC2)C1',
+              'C1CC1C1CC1', 'C1CC1C1CCC1', 'c1ccccc1C1CC1', 'C1CC1C1CC1C1CC1']
 
 
 def special():
